@@ -176,17 +176,48 @@ extern "C" { #[link_name = "getuid"] fn libc_getuid() -> u32; }
 /// (kind, mode & 0o7777, content or link target)
 type Snap = BTreeMap<Vec<Vec<u8>>, (char, u32, Vec<u8>)>;
 
+/// Run `f` on an object the harness owns with owner read (+ search for directories) granted for the duration:
+/// a harness that is not the superuser must still be able to look into what an extraction left with mode 000.
+fn with_owner_access<T>(p: &Path, is_dir: bool, f: impl Fn() -> std::io::Result<T>) -> std::io::Result<T> {
+    match f() {
+        Ok(v) => Ok(v),
+        Err(e) => {
+            let md = fs::symlink_metadata(p)?;
+            let mode = md.permissions().mode() & 0o7777;
+            let need = if is_dir { 0o500 } else { 0o400 };
+            if md.file_type().is_symlink() || mode & need == need || fs::set_permissions(p, fs::Permissions::from_mode(mode | need)).is_err() {
+                return Err(e);
+            }
+            let r = f();
+            let _ = fs::set_permissions(p, fs::Permissions::from_mode(mode));
+            r
+        }
+    }
+}
+
 fn snapshot_into(dir: &Path, rel: &mut Vec<Vec<u8>>, out: &mut Snap) {
-    let rd = match fs::read_dir(dir) {
+    let listed = with_owner_access(dir, true, || fs::read_dir(dir).map(|rd| rd.flatten().map(|e| (e.file_name(), e.path())).collect::<Vec<_>>()));
+    let rd = match listed {
         Ok(r) => r,
         Err(_) => {
             out.insert({ let mut k = rel.clone(); k.push(b"?unreadable".to_vec()); k }, ('?', 0, vec![]));
             return;
         }
     };
-    for e in rd.flatten() {
-        let name = e.file_name();
-        let p = e.path();
+    // entries of a directory without search permission cannot even be stat-ed by a harness that is not the superuser
+    let dir_mode = fs::symlink_metadata(dir).map(|m| m.permissions().mode() & 0o7777).ok();
+    let widened = match dir_mode {
+        Some(m) if m & 0o500 != 0o500 && unsafe { geteuid() } != 0 => fs::set_permissions(dir, fs::Permissions::from_mode(m | 0o500)).is_ok(),
+        _ => false,
+    };
+    snapshot_entries(rd, rel, out);
+    if widened {
+        let _ = fs::set_permissions(dir, fs::Permissions::from_mode(dir_mode.unwrap()));
+    }
+}
+
+fn snapshot_entries(rd: Vec<(std::ffi::OsString, PathBuf)>, rel: &mut Vec<Vec<u8>>, out: &mut Snap) {
+    for (name, p) in rd {
         let md = match fs::symlink_metadata(&p) {
             Ok(m) => m,
             Err(_) => continue,
@@ -198,7 +229,7 @@ fn snapshot_into(dir: &Path, rel: &mut Vec<Vec<u8>>, out: &mut Snap) {
             out.insert(rel.clone(), ('d', mode, vec![]));
             snapshot_into(&p, rel, out);
         } else if ft.is_file() {
-            out.insert(rel.clone(), ('f', mode, fs::read(&p).unwrap_or_else(|_| b"?unreadable".to_vec())));
+            out.insert(rel.clone(), ('f', mode, with_owner_access(&p, false, || fs::read(&p)).unwrap_or_else(|_| b"?unreadable".to_vec())));
         } else if ft.is_symlink() {
             let t = fs::read_link(&p).map(|t| t.as_os_str().as_bytes().to_vec()).unwrap_or_default();
             out.insert(rel.clone(), ('l', mode, t));
@@ -829,6 +860,60 @@ fn gen_tree(r: &mut Rng, permissive: bool) -> Vec<Ent> {
     out
 }
 
+const LOCK_DIR_MODES: [u32; 10] = [0o40000, 0o40555, 0o40500, 0o40400, 0o40111, 0o40100, 0o40200, 0o40300, 0o40644, 0o40755];
+const LOCK_FILE_MODES: [u32; 8] = [0o100000, 0o100444, 0o100400, 0o100111, 0o100555, 0o100200, 0o100644, 0o104555];
+
+/// A consistent tree of plain names whose recorded modes would lock out an extractor that applies them too early:
+/// directories without owner write / search listed BEFORE and AFTER their contents, nested restrictive directories,
+/// read-only files and directories repeated later (the last one decides).
+fn gen_lockout(r: &mut Rng) -> Vec<Ent> {
+    let mut out = gen_tree(r, true);
+    for e in out.iter_mut() {
+        if r.chance(2, 3) {
+            let dirish = e.name.last() == Some(&b'/');
+            e.attrs = Attrs::Unix(if dirish { *r.pick(&LOCK_DIR_MODES) } else { *r.pick(&LOCK_FILE_MODES) });
+        }
+    }
+    // parents that were only implied: list some of them, in front or behind
+    let mut parents: BTreeSet<Vec<u8>> = BTreeSet::new();
+    for e in &out {
+        let body: &[u8] = if e.name.last() == Some(&b'/') { &e.name[..e.name.len() - 1] } else { &e.name };
+        let mut k = 0;
+        while let Some(i) = body[k..].iter().position(|&b| b == b'/') {
+            parents.insert(body[..k + i + 1].to_vec());
+            k += i + 1;
+        }
+    }
+    for p in parents {
+        if r.chance(1, 2) {
+            let e = ent(&p, Attrs::Unix(*r.pick(&LOCK_DIR_MODES)), vec![]);
+            if r.chance(1, 2) {
+                out.insert(0, e);
+            } else {
+                out.push(e);
+            }
+        }
+    }
+    // repeat some entries later with other bytes / another mode
+    let n = out.len();
+    for i in 0..n {
+        if r.chance(1, 4) {
+            let mut e = out[i].clone();
+            let dirish = e.name.last() == Some(&b'/');
+            if !dirish {
+                e.data = rand_data(r);
+            }
+            e.attrs = match r.below(3) {
+                0 => Attrs::None,
+                _ => Attrs::Unix(if dirish { *r.pick(&LOCK_DIR_MODES) } else { *r.pick(&LOCK_FILE_MODES) }),
+            };
+            let pos = r.range(i as u64 + 1, out.len() as u64) as usize;
+            out.insert(pos.min(out.len()), e);
+        }
+    }
+    out
+}
+
 fn gen_mixed(r: &mut Rng) -> Vec<Ent> {
     let n = r.range(0, 7) as usize;
     let mut out = vec![];
@@ -892,6 +977,15 @@ fn fixed_cases() -> Vec<Vec<Ent>> {
         vec![f("link", u(0o120777), b"../canary/keep"), f("link", u(0o100644), b"written through the link?")],
         vec![f("d/", u(0o40000), b""), f("d/inner", u(0o100644), b"in a 000 dir")],
         vec![f("d/", u(0o40555), b""), f("d/inner", u(0o100644), b"in a r-x dir")],
+        vec![f("d/", u(0o40555), b""), f("d/f", Attrs::None, b"x")],
+        vec![f("f", u(0o100444), b"\x01"), f("f", Attrs::None, b"\x02")],
+        vec![f("d/", u(0o40000), b""), f("d/f", u(0o100644), b"x")],
+        vec![f("d/f", u(0o100400), b"x"), f("d/", u(0o40000), b"")],
+        vec![f("a/", u(0o40000), b""), f("a/b/", u(0o40700), b""), f("a/b/c", u(0o100000), b"z"), f("a/", u(0o40111), b"")],
+        vec![f("a/b/", u(0o40555), b""), f("a/", u(0o40555), b""), f("a/b/c/d", u(0o100444), b"deep"), f("a/b/c/", u(0o40500), b"")],
+        vec![f("./", u(0o40000), b""), f("./", u(0o40755), b"")],
+        vec![f("./", u(0o40000), b""), f("a/../", u(0o40755), b"")],
+        vec![f("a/../b/", u(0o40000), b""), f("b/../a/", u(0o40000), b"")],
         vec![f("s/", u(0o42755), b""), f("s/sub/", Attrs::None, b""), f("s/sub/f", Attrs::None, b"sgid inherit")],
         vec![f("suid", u(0o104755), b"1"), f("suid", Attrs::None, b"22")],
         vec![f("dosdir/", Attrs::Dos(0x10), b""), f("dosfile", Attrs::Dos(0x20), b"d"), f("dosro", Attrs::Dos(0x21), b"r"), f("dosrodir/", Attrs::Dos(0x11), b"")],
@@ -933,7 +1027,9 @@ impl Stream for FsStream {
                   archives (plain names over a 5-letter alphabet so that duplicates and file/dir conflicts happen, names with \
                   '.', '..', empty segments, trailing '/.', hostile names: '..' chains and absolute paths into the canary, NUL, \
                   backslashes), symlink-typed entries, all 12 permission bits and type bits, DOS attributes, CRC errors, \
-                  unsupported methods, local name != central name, nesting up to 60 levels; umask in {022,002,077,027,000,777}; \
+                  unsupported methods, local name != central name, nesting up to 60 levels; tree.lockout: consistent plain \
+                  trees whose recorded modes lack owner write / search (directories listed before and after their contents, \
+                  nested, read-only files and directories repeated later), 7/8 of them as euid 65534; umask in {022,002,077,027,000,777}; \
                   target directory present (modes 755/700/2755/1777/555) or absent; priv=0 (euid 65534) for a quarter of the cases \
                   when the harness is the superuser, for all cases otherwise"
             .into();
@@ -965,8 +1061,9 @@ impl Stream for FsStream {
                 4 => Some(0o555),
                 _ => Some(0o755),
             };
-            let (kind, ents) = match i % 5 {
+            let (kind, ents) = match i % 6 {
                 0 => ("tree.permissive", gen_tree(&mut r, true)),
+                5 => ("tree.lockout", gen_lockout(&mut r)),
                 1 => ("tree.anymode", gen_tree(&mut r, false)),
                 2 => {
                     // a consistent tree with one hostile entry somewhere
@@ -977,6 +1074,8 @@ impl Stream for FsStream {
                 }
                 _ => ("mixed", gen_mixed(&mut r)),
             };
+            // restrictive recorded modes only bite an unprivileged extractor
+            let privileged = if kind == "tree.lockout" && can_unpriv && r.chance(7, 8) { false } else { privileged };
             g.push(kind, op_line(which, privileged, um, root, &ents));
         }
         g
@@ -1072,22 +1171,11 @@ impl Stream for FsStream {
         let fmode = a.get("fmode").and_then(|s| u32::from_str_radix(s, 8).ok()).unwrap_or(0o644);
         let root_mode = a.get("root").and_then(|s| u32::from_str_radix(s, 8).ok());
         if let Some(want) = expected_tree(&ents) {
-            let perms_never_block = privileged || {
-                // owner rwx on every directory mode, owner w on every file mode, defaults included
-                dmode & 0o300 == 0o300
-                    && fmode & 0o200 == 0o200
-                    && root_mode.map(|m| m & 0o300 == 0o300).unwrap_or(true)
-                    && ents.iter().all(|e| match e.mode() {
-                        None => true,
-                        Some(m) => {
-                            if e.name.last() == Some(&b'/') {
-                                m & 0o300 == 0o300
-                            } else {
-                                m & 0o200 == 0o200
-                            }
-                        }
-                    })
-            };
+            // The property promises success for ANY recorded permission bits: what the archive records is applied
+            // after everything has been written (children before their directories), so only the modes the
+            // extractor does not choose can be in its way: the umask's defaults and the target directory's own mode.
+            let perms_never_block = privileged
+                || (dmode & 0o300 == 0o300 && fmode & 0o200 == 0o200 && root_mode.map(|m| m & 0o300 == 0o300).unwrap_or(true));
             let stream_ok = which != "stream" || !ents.is_empty();
             if perms_never_block && stream_ok {
                 if class != "ok" {
